@@ -30,6 +30,7 @@ func c15Scenarios() [][]c15Step {
 		{{"est", 0, "198.18.0.10", 1, 2}, {"mod", 0, "198.18.0.11", 0, 0}, {"mod", 0, "198.18.0.10", 0, 0}, {"del", 0, "", 0, 0}, {"est", 1, "198.18.0.10", 1, 2}, {"del", 1, "", 0, 0}},
 		{{"est", 0, "198.18.0.10", 1, 1}, {"est", 1, "198.18.0.10", 2, 1}, {"est", 2, "198.18.0.10", 1, 1}, {"del", 0, "", 0, 0}, {"del", 2, "", 0, 0}, {"del", 1, "", 0, 0}},
 		{{"est", 0, "198.18.0.10", 1, 2}, {"est", 1, "198.18.0.11", 2, 3}, {"upq", 0, "198.18.0.10", 1, 2}, {"upq", 1, "198.18.0.11", 2, 3}, {"est", 2, "198.18.0.12", 0, 1}, {"upq", 2, "198.18.0.12", 0, 1}, {"del", 0, "", 0, 0}, {"est", 3, "198.18.0.10", 1, 2}, {"del", 1, "", 0, 0}, {"del", 2, "", 0, 0}, {"del", 3, "", 0, 0}},
+		{{"est", 0, "198.18.0.10", 1, 4}, {"mod2", 0, "198.18.0.11", 0, 0}, {"est", 1, "198.18.0.10", 2, 4}, {"mod2", 1, "198.18.0.11", 0, 0}, {"del", 0, "", 0, 0}, {"est", 2, "198.18.0.10", 0, 4}, {"del", 1, "", 0, 0}, {"del", 2, "", 0, 0}},
 		{{"est", 0, "198.18.0.10", 1, 1}, {"est", 1, "198.18.0.11", 2, 1}, {"upd", 0, "198.18.0.10", 1, 1}, {"upd", 1, "198.18.0.11", 2, 1}, {"est", 2, "198.18.0.12", 0, 0}, {"del", 0, "", 0, 0}, {"est", 3, "198.18.0.10", 1, 2}, {"del", 1, "", 0, 0}, {"del", 2, "", 0, 0}, {"del", 3, "", 0, 0}},
 	}
 }
@@ -49,6 +50,19 @@ func c15Est(seq uint32, n int, st c15Step) vEstSpec {
 	case 1:
 		e.QERs = []vQERSpec{{ID: 1, HasQFI: true, QFI: 9, HasMBR: true, MBRUL: 1000, MBRDL: 2000}}
 		e.PDRs[0].QERs, e.PDRs[1].QERs = []uint32{1}, []uint32{1}
+	case 4:
+		// two QoS flows, each with its own FAR towards the same base station (two tunnels, one peer)
+		e.QERs = []vQERSpec{{ID: 1, HasQFI: true, QFI: 9, HasMBR: true, MBRUL: 1000, MBRDL: 2000}}
+		e.PDRs[0].QERs, e.PDRs[1].QERs = []uint32{1}, []uint32{1}
+		u2, d2 := e.PDRs[0], e.PDRs[1]
+		u2.ID, u2.FAR, d2.ID, d2.FAR = 3, 3, 4, 4
+		sdf2 := "permit out udp from 10.8.7.0/24 53 to assigned"
+		u2.SDF, d2.SDF, u2.Prec, d2.Prec = sdf2, sdf2, 60, 60
+		f3, f4 := e.FARs[0], e.FARs[1]
+		f3.ID, f4.ID = 3, 4
+		f4.OHCTeid += 0x100000
+		e.PDRs = append(e.PDRs, u2, d2)
+		e.FARs = append(e.FARs, f3, f4)
 	case 2:
 		e.QERs = []vQERSpec{{ID: 1, HasQFI: true, QFI: 9, HasMBR: true, MBRUL: 1000, MBRDL: 1000}, {ID: 2, HasQFI: true, QFI: 9, HasMBR: true, MBRUL: 9000, MBRDL: 9000}}
 		e.PDRs[0].QERs, e.PDRs[1].QERs = []uint32{1, 2}, []uint32{1, 2}
@@ -364,6 +378,16 @@ func TestVerif_C15(t *testing.T) {
 				}
 				f := vFARSpec{ID: 2, Action: ActionForward, Fwd: true, HasDst: true, DstIf: ie.DstInterfaceAccess, OHC: true, OHCTeid: 0x9000 + seq, OHCIP: st.gnb}
 				raw = p.modify(vModSpec{Seq: seq, SEID: up, UpFAR: []vFARSpec{f}})
+			case "mod2":
+				// both downlink FARs of a two-flow session move to another base station in one modification
+				up, ok := ups[st.sess]
+				if !ok {
+					continue
+				}
+				f2 := vFARSpec{ID: 2, Action: ActionForward, Fwd: true, HasDst: true, DstIf: ie.DstInterfaceAccess, OHC: true, OHCTeid: 0x9000 + seq, OHCIP: st.gnb}
+				f4 := f2
+				f4.ID, f4.OHCTeid = 4, 0xA000+seq
+				raw = p.modify(vModSpec{Seq: seq, SEID: up, UpFAR: []vFARSpec{f2, f4}})
 			case "upd":
 				// Update PDR re-sending the downlink PDR as it was created (a rule refresh): the PDR keeps its identifiers
 				up, ok := ups[st.sess]
@@ -401,7 +425,7 @@ func TestVerif_C15(t *testing.T) {
 			w := map[string]interface{}{"scenario": si, "faults": fmt.Sprint(faults), "trace": append([]string{}, trace...)}
 			if faulted {
 				res.event("requests_with_injected_failure", 1)
-				if accepted && (st.kind == "est" || st.kind == "mod" || st.kind == "upd" || st.kind == "upq") {
+				if accepted && (st.kind == "est" || st.kind == "mod" || st.kind == "mod2" || st.kind == "upd" || st.kind == "upq") {
 					res.violate("C15.R4", "accepted-despite-write-failure "+st.kind, fmt.Sprintf("a datapath write of this %s failed (write %v of the scenario) but the request was answered 'accepted'", st.kind, faults), w)
 				}
 			}
